@@ -574,6 +574,22 @@ pub fn odd_id(rng: &mut Rng, i: usize) -> usize {
 pub const LONG_MARKER_600: &str = "<mark data-x=\"0123456789012345678901234567890123456789012345678901234567890123456789012345678901234567890123456789012345678901234567890123456789012345678901234567890123456789012345678901234567890123456789012345678901234567890123456789012345678901234567890123456789012345678901234567890123456789012345678901234567890123456789012345678901234567890123456789012345678901234567890123456789012345678901234567890123456789012345678901234567890123456789012345678901234567890123456789012345678901234567890123456789012345678901234567890123456789012345678901234567890123456789012345678901234567890123456789012345678901234567890123456789012345678901234567890123456789\">";
 pub const LONG_MARKER_5000: &str = include_str!("../data/long_marker.txt");
 
+/// Pairs of marker pairs meant to be set one right after the other: the second is a prefix of the first (or the other way
+/// round), has as many bytes as the first has characters, as many characters but other bytes, the same bytes in other
+/// order - whatever a "did the markers change?" test could get wrong.
+pub const MARKER_STEPS: &[[(&str, &str); 2]] = &[
+    [("\u{2192}  ", "]"), ("\u{2192}", "]")],
+    [("é ", "» "), ("é", "»")],
+    [("ab", "cd"), ("é", "ü")],
+    [("<b>", "</b>"), ("<b", "</b")],
+    [("[[", "]]"), ("[", "]")],
+    [("😀   ", "😀   "), ("😀", "😀")],
+    [("[", "]"), ("[ ", " ]")],
+    [("«", "»"), ("«»", "»«")],
+    [("ab", "ba"), ("ba", "ab")],
+    [("e\u{301}", "]"), ("é", "]")],
+];
+
 pub const MARKERS: &[(&str, &str)] = &[
     ("[", "]"),
     ("", ""),
